@@ -95,9 +95,11 @@ def _codecs_encode(obj, encoding="utf-8", errors="strict"):
 
 
 def _bytearray(*args):
-    args = [a.b if isinstance(a, Str2) else a for a in args]
     if len(args) >= 2:
-        return bytearray(_text(args[0]) if not isinstance(args[0], (bytes, bytearray)) else args[0], _text(args[1]))
+        # bytearray(text, encoding): the encoding name is a Python-2 str in pickles Python 2 wrote ('latin-1'); Python 3 reads it as text
+        a0 = args[0].b if isinstance(args[0], Str2) else args[0]
+        return bytearray(a0, *[_text(a) for a in args[1:]])
+    args = [a.b if isinstance(a, Str2) else a for a in args]
     return bytearray(*args)
 
 
